@@ -9,7 +9,7 @@
     [outs_match]: the outputs agree pointwise (All up to permutation) and no model output is a
     failure ([RFail]: Panic or Hang). *)
 From Coq Require Import List NArith Permutation.
-From Algo.C02 Require Import Model Spec ProofsChain ProofsLinear.
+From Algo.C02 Require Import Model Spec ProofsChain ProofsLinear ProofsQuad.
 Import ListNotations.
 
 (** Separate chaining: full refinement, for every key/value type with a decidable equality, every
@@ -39,6 +39,28 @@ Theorem C02_refines_linear :
     forall ops : list (op K V),
       outs_match K V (run K V eqb eqv hash minlf maxlf orc Linear cap ops) (run_spec K V eqb eqv ops).
 Proof. intros. apply linear_refines; auto. Qed.
+
+(** Quadratic probing with soft deletion (after the fixes of D02, D03, D03b).  The full statement: *)
+Definition C02_refines_quadratic_full : Prop :=
+  forall (K V : Type) (eqb : K -> K -> bool) (eqv : V -> V -> bool) (hash : K -> N) (minlf maxlf : lf),
+    (forall a b, eqb a b = true <-> a = b) ->
+    valid_soft minlf maxlf ->
+    forall (cap : nat), valid_cap_prime cap ->
+    forall (orc : nat -> nat -> list nat -> list nat), (forall i j l, Permutation (orc i j l) l) ->
+    forall ops : list (op K V),
+      outs_match K V (run K V eqb eqv hash minlf maxlf orc Quadratic cap ops) (run_spec K V eqb eqv ops).
+
+(** Proved: the full statement under one number-theoretic hypothesis, [prime_gap] (Bertrand's postulate
+    restricted to n >= 31: there is a prime in [n, 2n+1]), which is what makes the search loop of
+    [smallestPrimeLargerThan] terminate within the model's fuel.  Everything else is proved: [isPrime]
+    is sound, the first (m+1)/2 quadratic probes of a prime-sized table are pairwise distinct, fewer than
+    (m+1)/2 slots are ever non-nil (live + soft-deleted), n counts the live entries, keys are pairwise
+    distinct, every entry is reachable along its probe sequence, resizes never nest.
+    Options: maxLF <= 1/2, maxLF*31 >= 1, 3*minLF <= maxLF (the defaults 1/8, 1/2 included); capacities:
+    the default or any prime >= 31.  The hypothesis is checked at run time: the correspondence compares
+    the table size after every resize with the implementation's. *)
+Theorem C02_refines_quadratic_partial : prime_gap -> C02_refines_quadratic_full.
+Proof. intros G K V eqb eqv hash minlf maxlf He Hv cap Hc orc Ho ops. apply quad_refines; auto. Qed.
 
 (** Non-vacuity: one history on each of the four tables under the constant hash function
     (every key collides): put 40 keys (all tables grow at least once), delete and revive some. *)
@@ -77,5 +99,14 @@ Proof.
   split; [left; reflexivity|right; exists 7; split; auto with arith].
 Qed.
 
+Example C02_soft_defaults_valid :
+  valid_soft {| lf_num := 1; lf_den := 8 |} {| lf_num := 1; lf_den := 2 |} /\ valid_cap_prime 0 /\ valid_cap_prime 67.
+Proof.
+  split; [unfold valid_soft; simpl; repeat split; auto with arith|].
+  split; [left; reflexivity|right; split; [|reflexivity]].
+  repeat constructor.
+Qed.
+
 Print Assumptions C02_refines_chain.
 Print Assumptions C02_refines_linear.
+Print Assumptions C02_refines_quadratic_partial.
